@@ -131,6 +131,13 @@ func runSolversV(files []string, timeoutS int, all bool, skipCvc5 bool) solveRes
 // discharge solves all obligations in parallel.
 func (g *Gen) discharge(obls []*Obligation, workDir string, timeoutS int, all bool, jobs int) {
 	os.MkdirAll(workDir, 0o755)
+	// queries are built sequentially (building may add declarations to the shared prelude; a first
+	// pass collects them, the second pass renders the final text)
+	for pass := 0; pass < 2; pass++ {
+		for _, o := range obls {
+			o.qs = [4]string{o.queryV(g, true, 0), "", o.queryV(g, false, 2), o.queryV(g, false, 3)}
+		}
+	}
 	sem := make(chan struct{}, jobs)
 	var wg sync.WaitGroup
 	for i, o := range obls {
@@ -139,7 +146,7 @@ func (g *Gen) discharge(obls []*Obligation, workDir string, timeoutS int, all bo
 		go func(i int, o *Obligation) {
 			defer wg.Done()
 			defer func() { <-sem }()
-			q := o.query(g, true)
+			q := o.qs[0]
 			fn := filepath.Join(workDir, fmt.Sprintf("%04d_%s.smt2", i, sanitize(o.Name)))
 			if len(fn) > 200 {
 				fn = fn[:190] + ".smt2"
@@ -161,7 +168,7 @@ func (g *Gen) discharge(obls []*Obligation, workDir string, timeoutS int, all bo
 			files := []string{fn}
 			if o.Raw == "" {
 				// first the lightest variant alone: most obligations need none of the dropped hypotheses
-				lq := o.queryV(g, false, 3)
+				lq := o.qs[3]
 				if lq != q {
 					lf := strings.TrimSuffix(fn, ".smt2") + ".light3.smt2"
 					os.WriteFile(lf, []byte(lq), 0o644)
@@ -180,7 +187,7 @@ func (g *Gen) discharge(obls []*Obligation, workDir string, timeoutS int, all bo
 					}
 				}
 				for k := 2; k <= 3; k++ {
-					lq := o.queryV(g, false, k)
+					lq := o.qs[k]
 					if lq == files2last(files, q) {
 						continue
 					}
